@@ -495,6 +495,8 @@ class ExtLib:
                 raise Unsupported("view with dtype")
             return Arr(arr.alloc, arr.axes, arr.part, arr.perm)
         if m == "astype":
+            if kwargs.get("copy") is False:
+                return self.maybe_copy(arr, self.dtype_arg(args[0] if args else kwargs.get("dtype")), node, ms, "astype")
             return self.astype(arr, self.dtype_arg(args[0] if args else kwargs.get("dtype")), node, ms)
         if m == "copy":
             return self.derived_array("copy", [arr], arr.shape, arr.dtype, node, ms, valfn=arr_valfn(arr))
@@ -775,8 +777,49 @@ class ExtLib:
         self.reductions[name] = ("mean", v)
         return psym(name)
 
+    def maybe_copy(self, v, dt, n, ms, why):
+        """numpy returns the argument itself when it already has the requested layout / element type and a detached copy
+        otherwise: the result is a separate allocation for the analysis (same values at this point), so that a later write
+        through it, or a later read of it after the source changed, is not mistaken for an access to the source"""
+        out = self.derived_array("maybe_copy", [v], v.shape, dt or v.dtype, n, ms, valfn=arr_valfn(v), meta={"why": why})
+        out.alloc.label = "%s(%s)" % (why, v.alloc.label)
+        out.alloc.maybe_copy_of = v
+        return out
+
     def c_numpy_ascontiguousarray(self, a, k, n, ms):
-        return a[0]
+        v = a[0]
+        if not isinstance(v, Arr):
+            return v
+        if v.perm is None and all(ax[0] == "i" for ax in v.axes[:sum(1 for ax in v.axes if ax[0] == "i")]) and self._is_trailing_full(v):
+            return v            # leading indices fixed, trailing axes in full: contiguous for every input, numpy returns it as is
+        return self.maybe_copy(v, None, n, ms, "ascontiguousarray")
+
+    def _is_trailing_full(self, v):
+        seen_range = False
+        for ax, nfull in zip(v.axes, v.alloc.shape):
+            if ax[0] == "i":
+                if seen_range:
+                    return False
+                continue
+            seen_range = True
+            if not (ax[1] == pconst(0) and ax[2] == to_pw(nfull)):
+                return False
+        return v.alloc.how in ("zeros", "empty", "ones", "full", "zeros_like", "empty_like") or v.alloc.how.startswith("derived")
+
+    def c_numpy_asarray(self, a, k, n, ms):
+        v = a[0]
+        dt = k.get("dtype", a[1] if len(a) > 1 else None)
+        if not isinstance(v, Arr):
+            return self.c_numpy_array(a[:1], {}, n, ms)
+        if dt is None:
+            return v
+        return self.maybe_copy(v, self.dtype_arg(dt), n, ms, "asarray")
+
+    def c_numpy_require(self, a, k, n, ms):
+        v = a[0]
+        if not isinstance(v, Arr):
+            raise Unsupported("numpy.require of a non-array")
+        return self.maybe_copy(v, None, n, ms, "require")
 
     def c_numpy_finfo(self, a, k, n, ms):
         return Opaque("finfo", a[0])
